@@ -149,6 +149,11 @@ func ParseStreamCallback(reader io.Reader, c Config, callback ParseCallback) err
 			node.Elements.Add(title, fQty)
 		}
 	}
+	// a read error or an over-long line ends the scan early: do not report
+	// the prefix read so far as if it were the whole stream
+	if err = lineScanner.Err(); err != nil {
+		return NewErrorIO(err, "")
+	}
 	// push last node
 	if node != nil {
 		_, err = callback(node, nil)
